@@ -928,6 +928,15 @@ impl DPEventLoop {
   fn remove_local_reader(&mut self, reader_guid: GUID) {
     if let Some(old_reader) = self.message_receiver.remove_reader(reader_guid) {
       old_reader.leave_topic_cache();
+      // It does not hold back the other Readers of the topic any longer.
+      for sibling in self
+        .message_receiver
+        .available_readers
+        .values_mut()
+        .filter(|r| r.topic_name() == old_reader.topic_name())
+      {
+        sibling.notify_if_more_is_readable_from_any_writer();
+      }
       self
         .poll
         .deregister(&old_reader.timed_event_timer)
